@@ -144,11 +144,75 @@ def with_metadata(draw, base):
     return sp
 
 
+@st.composite
+def with_twins(draw, base):
+    """two nodes that agree in (almost) everything: identical twins that are invalid in the same way, or a valid node
+    followed / preceded by a copy that differs in one attribute value, content, or something deeper"""
+    from metapype.eml import rule as R
+    sp = treegen._copy(draw(base))
+    cands = [(p, s) for p, s in treegen.spec_nodes(sp) if p]
+    if not cands:
+        return sp
+    kind = draw(st.sampled_from(["identical", "identical-both-invalid", "identical-both-misordered", "attr-value", "attr-value",
+                                 "attr-value", "content", "deep-content", "child-dropped"]))
+
+    def enums_of(s):
+        rn = R.node_mappings.get(s["n"])
+        return [(a, v[1:]) for a, v in (R.rules_dict[rn][0].items() if rn in R.rules_dict else []) if len(v) > 1]
+    if kind == "attr-value":
+        with_enum = [(p, s) for p, s in cands if enums_of(s)]
+        if with_enum:
+            cands = with_enum
+    path, node = cands[draw(st.integers(0, len(cands) - 1))]
+    parent = treegen.spec_at(sp, path[:-1])
+    enums = enums_of(node)
+    if kind == "attr-value" and enums:
+        a, vals = enums[draw(st.integers(0, len(enums) - 1))]
+        node.setdefault("a", {})[a] = vals[draw(st.integers(0, len(vals) - 1))]
+    if kind == "identical-both-misordered" and node.get("k"):
+        # the same child-order problem in two siblings: each must be reported
+        ks = node["k"]
+        if len(ks) >= 2 and ks[0]["n"] != ks[-1]["n"]:
+            ks.reverse()
+        else:
+            ks.append({"n": draw(st.sampled_from(["zzLeftover", ks[0]["n"]]))})
+    twin = treegen._copy(node)
+    if kind == "identical-both-invalid":
+        node["c"] = twin["c"] = "zz unexpected"
+        node.setdefault("a", {})["zzForeign"] = "1"
+        twin.setdefault("a", {})["zzForeign"] = "1"
+    elif kind == "attr-value" and enums:
+        twin["a"][a] = draw(st.sampled_from(["zzBad", "", vals[0].upper(), vals[0] + " "]))
+    elif kind == "attr-value" and twin.get("a"):
+        k = sorted(twin["a"])[draw(st.integers(0, len(twin["a"]) - 1))]
+        twin["a"][k] = twin["a"][k] + "~"
+    elif kind == "content":
+        twin["c"] = draw(st.sampled_from(["", "zz", "-91", "x y"])) if twin.get("c") is None else None
+        if twin["c"] is None:
+            del twin["c"]
+    elif kind == "deep-content":
+        inner = [s for _, s in treegen.spec_nodes(twin)]
+        t = inner[draw(st.integers(0, len(inner) - 1))]
+        t["c"] = "zz changed"
+    elif kind == "child-dropped" and twin.get("k"):
+        del twin["k"][draw(st.integers(0, len(twin["k"]) - 1))]
+        if not twin["k"]:
+            del twin["k"]
+    first_is_original = draw(st.booleans())
+    i = path[-1]
+    if first_is_original:
+        parent["k"].insert(i + 1, twin)
+    else:
+        parent["k"].insert(i, twin)
+    return sp
+
+
 def strategy():
     valid = treegen.valid_spec(max_nodes=40)
     fx = treegen.subtrees_of_fixture()
     mutated = treegen.mutated(valid, 0, 5).map(lambda t: t[0])
-    parts = [mutated, mutated, treegen.arb_spec(20), with_metadata(mutated), with_metadata(treegen.arb_spec(10))]
+    parts = [mutated, mutated, treegen.arb_spec(20), with_metadata(mutated), with_metadata(treegen.arb_spec(10)),
+             with_twins(valid), with_twins(valid), with_twins(mutated)]
     if fx:
         parts.append(treegen.mutated(st.sampled_from(fx), 0, 4).map(lambda t: t[0]))
     return st.tuples(st.one_of(*parts), st.lists(treegen.arb_spec(5), min_size=4, max_size=4))
